@@ -206,6 +206,9 @@ func cmdMutants(args []string) int {
 				verdict += " (UNEXPECTED: this change does not break the property; the check is over-strict)"
 				missed++
 			}
+		} else if verdict == "INFRA" {
+			// a check that could not run decides nothing - neither "caught" nor "not reported"
+			missed++
 		} else if meta.ExpectMissed {
 			verdict = "not reported (as expected: the change does not break the property)"
 		} else if meta.KnownMiss != "" && verdict == "MISSED" {
